@@ -24,10 +24,10 @@ import (
 )
 
 const (
-	fPanic = iota // the handler panics on this request
-	fBad          // an undecodable message
-	fEOF          // abrupt disconnect on a message boundary
-	fEOFmid       // abrupt disconnect inside a message
+	fPanic  = iota // the handler panics on this request
+	fBad           // an undecodable message
+	fEOF           // abrupt disconnect on a message boundary
+	fEOFmid        // abrupt disconnect inside a message
 	nFaults
 )
 
